@@ -2,6 +2,7 @@
 //! crate in /repo and prints one canonical result per line.
 
 mod apache;
+mod codecloop;
 mod container;
 mod dtarget;
 mod io;
@@ -342,6 +343,7 @@ fn run_case(line: &str) -> String {
 		"sos" => cmd_sos(args),
 		"dealloc" => cmd_dealloc(args),
 		"sod" => cmd_sod(args),
+		"codecloop" => codecloop::cmd_codecloop(args),
 		"rtypes" => rtypes::cmd_rtypes(args),
 		"rtypes_schema" => rtypes::cmd_rtypes_schema(args),
 		"rtypes_oracle" => rtypes::cmd_rtypes_oracle(args),
